@@ -1650,6 +1650,8 @@ package dig
 //@   requires s != nil
 //@   allocates plain
 //@   ensures[C08:providers-collected-from-the-scope-and-its-ancestors,C04:providers-collected-from-the-scope-and-its-ancestors] (len(r) == 0) == (forall i int :: 0 <= i && i < s.nanc ==> len(s.anc[i].providers[k]) == 0)
+//@   ensures[C14:collected-providers-exist] forall j int :: 0 <= j && j < len(r) ==> r[j] != nil
+//@   loop range allScopes #1: invariant[C14:collected-providers-so-far-exist] forall j int :: 0 <= j && j < len(providers) ==> providers[j] != nil
 //@   loop range allScopes #1: complete[C08:every-ancestor-asked-for-providers]
 //@   loop range allScopes #1: invariant[C08:providers-so-far] (len(providers) == 0) == (forall i int :: 0 <= i && i < $i ==> len(s.anc[i].providers[k]) == 0)
 //@   loop range allScopes #1: invariant len(allScopes) == s.nanc && (forall i int :: 0 <= i && i < len(allScopes) ==> allScopes[i] == s.anc[i]) && (cap(providers) == 0 || fresh(providers))
@@ -1873,3 +1875,66 @@ package dig
 //@ func VisualizeError(err) (r)
 //@   allocates plain
 //@   ensures[C19:the-error-option-records-its-argument] is(r, visualizeErrorOption) && as(r, visualizeErrorOption).err == err
+
+// ---------------------------------------------------------------------------
+// C05: the graph that is searched for cycles is the dependency graph. The
+// edges of a node are computed from the registries: every provider visible
+// from the graph's scope (the scope itself and its ancestors) of every
+// dependency of a constructor, the node of every value-group dependency, and
+// for a value-group node every visible feeder of the group.
+
+//@ func (s *Scope) getAllValueProviders(name, t) (r)
+//@   requires s != nil
+//@   allocates plain
+//@   site call (*dig.Scope).getAllProviders #1: assert[C05:value-providers-looked-up-under-type-and-name,C09:value-providers-looked-up-under-type-and-name] $recv == s && $arg0 == vkey(t, name)
+//@   ensures[C05:value-providers-are-all-visible-providers] r == ret(getAllProviders_1, 0)
+//@   ensures forall j int :: 0 <= j && j < len(r) ==> r[j] != nil
+
+//@ func (s *Scope) getAllGroupProviders(name, t) (r)
+//@   requires s != nil
+//@   allocates plain
+//@   site call (*dig.Scope).getAllProviders #1: assert[C05:group-providers-looked-up-under-type-and-group,C10:group-providers-looked-up-under-type-and-group] $recv == s && $arg0 == gkey(t, name)
+//@   ensures[C05:group-providers-are-all-visible-providers] r == ret(getAllProviders_1, 0)
+//@   ensures forall j int :: 0 <= j && j < len(r) ==> r[j] != nil
+
+//@ func getParamOrder(gh, p) (orders)
+//@   requires gh != nil && gh.s != nil && p != nil
+//@   allocates plain
+//@   ensures[C05:a-group-dependency-is-an-edge-to-the-group-node] is(p, paramGroupedSlice) ==> len(orders) == 1 && orders[0] == as(p, paramGroupedSlice).orders[gh.s]
+//@   ensures[C05:one-edge-per-visible-provider-of-a-dependency] is(p, paramSingle) && reached(getAllValueProviders_1) ==> len(orders) == len(ret(getAllValueProviders_1, 0))
+//@   ensures fresh(orders) || len(orders) == 0
+//@   site call (*dig.Scope).getAllValueProviders #1: assert[C05:dependency-providers-are-looked-up-in-the-graphs-scope] $recv == gh.s && $arg0 == as(p, paramSingle).Name && $arg1 == as(p, paramSingle).Type
+//@   site call (dig.provider).Order #1: assert[C05:a-provider-edge-is-its-position-in-this-graph] $recv == providers[$i] && $arg0 == gh.s
+//@   site call dig.getParamOrder #1: assert[C05:every-field-of-a-parameter-object-contributes-its-edges,C15:every-field-of-a-parameter-object-contributes-its-edges] $arg0 == gh && $arg1 == as(p, paramObject).Fields[$i].Param
+//@   loop range providers #1: complete[C05:every-visible-provider-is-an-edge]
+//@   loop range p.Fields #1: complete[C05:every-field-is-asked-for-its-edges]
+//@   loop range providers #1: invariant len(orders) == $i && (cap(orders) == 0 || fresh(orders)) && providers == ret(getAllValueProviders_1, 0)
+//@   loop range p.Fields #1: invariant cap(orders) == 0 || fresh(orders)
+
+// a provider's position in a scope's graph (interface dispatch; the only implementation is *constructorNode)
+//@ func (p provider) Order(s) (r)
+//@   trusted
+//@   requires p != nil
+//@   ensures is(p, ptr(constructorNode)) ==> r == as(p, ptr(constructorNode)).orders[s]
+
+//@ func (gh *graphHolder) EdgesFrom(u) (orders)
+//@   requires gh != nil && gh.s != nil && 0 <= u && u < len(gh.nodes) && gh.nodes[u] != nil
+// (EdgesFrom is only called through the graph.Graph interface by the search, so
+// these preconditions are not checked at a call site: they are the shape facts
+// of graph nodes that newGraphNode and the parsers establish)
+//@   requires (is(gh.nodes[u].Wrapped, ptr(constructorNode)) ==> as(gh.nodes[u].Wrapped, ptr(constructorNode)) != nil) && (is(gh.nodes[u].Wrapped, ptr(paramGroupedSlice)) ==> as(gh.nodes[u].Wrapped, ptr(paramGroupedSlice)) != nil
+//@        && as(gh.nodes[u].Wrapped, ptr(paramGroupedSlice)).Type != nil && kind(as(gh.nodes[u].Wrapped, ptr(paramGroupedSlice)).Type) == kSlice())
+//@   requires is(gh.nodes[u].Wrapped, ptr(constructorNode)) ==> (forall j int :: 0 <= j && j < len(as(gh.nodes[u].Wrapped, ptr(constructorNode)).paramList.Params) ==> as(gh.nodes[u].Wrapped, ptr(constructorNode)).paramList.Params[j] != nil)
+//@   allocates plain
+//@   ensures fresh(orders) || len(orders) == 0
+//@   site call dig.getParamOrder #1: assert[C05:every-dependency-of-a-constructor-contributes-its-edges] $arg0 == gh && $arg1 == as(gh.nodes[u].Wrapped, ptr(constructorNode)).paramList.Params[$i]
+//@   site call (*dig.Scope).getAllGroupProviders #1: assert[C05:a-group-node-points-to-every-visible-feeder,C10:a-group-node-points-to-every-visible-feeder] $recv == gh.s && $arg0 == as(gh.nodes[u].Wrapped, ptr(paramGroupedSlice)).Group && $arg1 == elem(as(gh.nodes[u].Wrapped, ptr(paramGroupedSlice)).Type)
+//@   site call (dig.provider).Order #1: assert[C05:a-feeder-edge-is-its-position-in-this-graph] $recv == providers[$i] && $arg0 == gh.s
+//@   loop range w.paramList.Params #1: complete[C05:every-dependency-is-asked-for-its-edges]
+//@   loop range providers #1: complete[C05:every-visible-feeder-is-an-edge]
+//@   loop range w.paramList.Params #1: invariant cap(orders) == 0 || fresh(orders)
+//@   loop range providers #1: invariant len(orders) == $i && (cap(orders) == 0 || fresh(orders))
+
+//@ func (gh *graphHolder) Order() (n)
+//@   requires gh != nil
+//@   ensures[C05:the-order-of-the-graph-is-its-node-count] n == len(gh.nodes) && unchangedAll()
